@@ -227,7 +227,14 @@ static int cmd_verify(void) {
 	} else if (!strcmp(api, "sigverify")) {
 		rc = KSI_verifySignature(c, s);
 	} else if (!strcmp(api, "document")) {
-		size_t n; unsigned char *b = kx_hexarg(kv("data"), &n); rc = KSI_Signature_verifyDocument(s, c, b, n); vh_exact_free(b, n);
+		size_t n; unsigned char *b = kx_hexarg(kv("data"), &n);
+		if (kv("zeros")) {
+			/* the document is data followed by that many zero octets, handed over in one call (an untouched anonymous mapping: no memory is committed) */
+			size_t z = (size_t)strtoull(kv("zeros"), NULL, 0), tot = n + z; unsigned char *m = mmap(NULL, tot, PROT_READ | PROT_WRITE, MAP_PRIVATE | MAP_ANONYMOUS | MAP_NORESERVE, -1, 0);
+			if (m == MAP_FAILED) { vh_exact_free(b, n); kx_out(" stage=mmap"); return -2; }
+			memcpy(m, b, n); rc = KSI_Signature_verifyDocument(s, c, m, tot); munmap(m, tot);
+		} else rc = KSI_Signature_verifyDocument(s, c, b, n);
+		vh_exact_free(b, n);
 	} else rc = -1;
 	KSI_DataHash_free(dh); KSI_PublicationData_free(pd); KSI_Policy_free(custom);
 	return rc;
